@@ -21,7 +21,8 @@ use chia_consensus::sanitize_int::{sanitize_uint, SanitizedUint};
 use chia_consensus::solution_generator::{calculate_generator_length, solution_generator};
 use chia_consensus::validation_error::{ErrorCode, ValidationErr};
 use chia_protocol::{Bytes32, Coin, CoinSpend, Program};
-use clvm_traits::{FromClvm, ToClvm};
+use clvm_traits::{ClvmEncoder, FromClvm, ToClvm, ToClvmError};
+use clvm_utils::ToTreeHash;
 use clvmr::Allocator;
 use num_bigint::BigInt;
 use sha2::{Digest, Sha256};
@@ -67,6 +68,8 @@ fn check_u64_cheap(v: u64, a: &mut Allocator) -> CaseResult {
     let node = v.to_clvm(a).expect("to_clvm u64");
     let t = a.atom(node).as_ref().to_vec();
     vensure_eq!(t, want, "C11:clvm-traits:encode-u64", "u64::to_clvm({v:#x})");
+    let rec = v.to_clvm(&mut Recorder).expect("to_clvm recorder").0;
+    vensure_eq!(rec, want, "C11:clvm-traits:encode-other-encoder-u64", "u64::to_clvm({v:#x}) through a non-allocator encoder");
     let back = u64::from_clvm(a, n);
     vensure!(
         back.as_ref().ok() == Some(&v),
@@ -186,6 +189,37 @@ fn check_u64_consensus(v: u64) -> CaseResult {
 // --------------------------------------------------------------------------
 // clvm-traits widths
 
+/// an encoder that is *not* the allocator: it records the atom bytes exactly
+/// as `Atom::as_ref()` presents them (this is what every non-allocator
+/// encoder, e.g. the tree hasher, sees)
+struct Recorder;
+#[derive(Clone)]
+struct RecNode(Vec<u8>);
+impl ToClvm<Recorder> for RecNode {
+    fn to_clvm(&self, _e: &mut Recorder) -> Result<RecNode, ToClvmError> {
+        Ok(self.clone())
+    }
+}
+impl ClvmEncoder for Recorder {
+    type Node = RecNode;
+    fn encode_atom(&mut self, atom: clvmr::Atom<'_>) -> Result<RecNode, ToClvmError> {
+        Ok(RecNode(atom.as_ref().to_vec()))
+    }
+    fn encode_pair(&mut self, first: RecNode, rest: RecNode) -> Result<RecNode, ToClvmError> {
+        let mut v = vec![0xff];
+        v.extend(first.0);
+        v.extend(rest.0);
+        Ok(RecNode(v))
+    }
+}
+
+fn atom_tree_hash(b: &[u8]) -> [u8; 32] {
+    let mut h = Sha256::new();
+    h.update([1u8]);
+    h.update(b);
+    h.finalize().into()
+}
+
 macro_rules! check_width {
     ($t:ty, $v:expr, $a:expr, $name:literal) => {{
         let v: $t = $v;
@@ -193,6 +227,16 @@ macro_rules! check_width {
         let node = v.to_clvm($a).expect("to_clvm");
         let got = $a.atom(node).as_ref().to_vec();
         vensure_eq!(got, want, concat!("C11:clvm-traits:encode-", $name), "{}::to_clvm({v})", $name);
+        // the same conversion through encoders other than the allocator
+        let rec = v.to_clvm(&mut Recorder).expect("to_clvm recorder").0;
+        vensure_eq!(rec, want, concat!("C11:clvm-traits:encode-other-encoder-", $name), "{}::to_clvm({v}) through a non-allocator encoder", $name);
+        vensure!(
+            v.tree_hash().to_bytes() == atom_tree_hash(&want),
+            concat!("C11:clvm-traits:tree-hash-of-integer-", $name),
+            "{}::tree_hash({v}) is not the hash of the canonical atom {}",
+            $name,
+            hex(&want)
+        );
         // interpreter form of the same value
         let n2 = $a.new_number(BigInt::from(v)).expect("new_number");
         let interp = $a.atom(n2).as_ref().to_vec();
@@ -229,6 +273,9 @@ fn check_all_widths(raw: u128, a: &mut Allocator) -> CaseResult {
         let node = v.to_clvm(a).expect("to_clvm");
         let got = a.atom(node).as_ref().to_vec();
         vensure_eq!(got, want, "C11:clvm-traits:encode-u128", "u128::to_clvm({v})");
+        let rec = v.to_clvm(&mut Recorder).expect("to_clvm recorder").0;
+        vensure_eq!(rec, want, "C11:clvm-traits:encode-other-encoder-u128", "u128::to_clvm({v}) through a non-allocator encoder");
+        vensure!(v.tree_hash().to_bytes() == atom_tree_hash(&want), "C11:clvm-traits:tree-hash-of-integer-u128", "u128::tree_hash({v})");
         let n2 = a.new_number(BigInt::from(v)).expect("new_number");
         let interp = a.atom(n2).as_ref().to_vec();
         vensure_eq!(interp, want, "C11:model-vs-interpreter", "new_number({v})");
